@@ -257,7 +257,7 @@ CLAIMS = {
              "(unit square, connected, equal lengths, rhombi, star directions/Penrose angles, no crossings, no coincident vertices, no dangling edges, V−E+F=1) is evaluated on the "
              "output for B∈{3,5,7,9}, default/scalar/random/generic offsets, angle disorder and penrose_tiling seeds.",
         note="Partial: de Bruijn's theorem (planarity and injectivity of the dual of a generic multigrid), connectivity and Euler's formula are not proved; they are decided on the "
-             "output with tolerance-guarded float predicates. Linear independence of roots of unity modulo cyclotomic relations is proved for every prime number of bundles (prime_position_injective: 3, 5, 7; penrose_position_injective for 5) and trusted for 9. Non-generic offsets (three lines through a "
+             "output with tolerance-guarded float predicates. Linear independence of roots of unity modulo cyclotomic relations is proved for every number of bundles the property quantifies over: prime_position_injective (3, 5, 7), nine_position_injective (9: three relations e_k + e_{k+3} + e_{k+6} = 0) — exactly the relation generators the harness hands to the model's distinctness re-check. Non-generic offsets (three lines through a "
              "point; always for random_offsets(3)) are detected independently and excluded. Trusted: Lean kernel/Mathlib/standard axioms; harness.",
         ref="§7 C17"),
 }
